@@ -313,9 +313,52 @@ def mat_ref(t):
     return mat_probe_ok(shape, w, a, b), shape, zr
 
 
+def session_subs(t):
+    """the sub-cases (token lists) of `session n c1 ;; c2 ;; ...`"""
+    subs, cur = [], []
+    for w in t[2:]:
+        if w == ";;": subs.append(cur); cur = []
+        else: cur.append(w)
+    subs.append(cur)
+    if len(subs) != int(t[1]) or any(not s_ for s_ in subs): raise ValueError("session")
+    return subs
+
+
+def fexpr_len(t, pos):
+    """number of tokens of the prefix expression that starts at t[pos]"""
+    w = t[pos]
+    if w == "x": return 1
+    if w == "c": return 2
+    if w in ("+", "-", "*", "/"):
+        a = fexpr_len(t, pos + 1); return 1 + a + fexpr_len(t, pos + 1 + a)
+    if w == "pow": return 2 + fexpr_len(t, pos + 1)
+    return 1 + fexpr_len(t, pos + 1)
+
+
+def nested_ref(t):
+    """`nested <entry> k <sub-case>`: the library call `entry` whose call-back makes the request of the sub-case on its k-th evaluation
+    (k is at most the number of evaluations every method makes on a non-empty interval).  The request is reached unless the entry point refuses
+    its own arguments first or returns without evaluating the call-back (coinciding limits of a nested quadrature)."""
+    e = t[1]
+    if e == "root":
+        n = fexpr_len(t, 2); pos = 2 + n + 2; sub = t[pos + 1:]
+        inner = True if sub == ["throw"] else meaningful(" ".join(sub))
+        if inner is not True or sub == ["throw"]: return inner
+        return meaningful("find_root " + " ".join(t[2:pos]))
+    d = {"int1": 2, "int2": 4, "int3": 6}[e]; m = t[2]; lim = [tokf(x) for x in t[3:3 + d]]; sub = t[3 + d + 1:]
+    if any(math.isnan(v) or math.isinf(v) for v in lim): return None
+    inner = True if sub == ["throw"] else meaningful(" ".join(sub))
+    if m in M1D: return True if any(lim[2 * k] == lim[2 * k + 1] for k in range(d // 2)) else inner
+    if m in MMC and e != "int1": return inner
+    return False
+
+
 def meaningful(line):
     """Independent statement of every entry point's domain.  True: must return (OK); False: must exit with a diagnostic; None: no claim."""
     t = line.split(); op = t[0]; I = lambda k: int(t[k])
+    if op == "session": return worst([meaningful(" ".join(s_)) for s_ in session_subs(t)])
+    if op == "nested": return nested_ref(t)
+    if op == "throw": return True
     if op in ("icalls", "icalls_t"): return icalls_ref(t)[0]
     if op in ("i2calls", "i2calls_t"): return i2calls_ref(t)[0]
     if op == "fact_seq": return fact_seq_ref(t)
@@ -656,6 +699,8 @@ def generate(rng, tier):
     gen_nonfinite_tables(rng, big, add)
     gen_long_sessions(rng, big, add)
     gen_save_edges(rng, big, add)
+    gen_coinciding(rng, big, add, grids)
+    gen_process_histories(rng, big, add, cs)
     return cs
 
 
@@ -827,6 +872,123 @@ def gen_sessions(rng, big, add, edge_points):
         if not ops: continue
         pr = "none" if dead else rng.choice(probes(shape, old))
         add(f"mat_hist {s0[0]} {s0[1]} {len(ops)} " + " ".join(ops) + " " + pr, "matrix-history", nt=True)
+
+
+def gen_coinciding(rng, big, add, grids):
+    """two-argument requests whose arguments coincide or nearly coincide (Integrate(x, x), Local_Minimum(x, x), ...): x at every kind of place -
+    inside, at the ends, in the tolerance band, at the tolerance point +-ulp, beyond it by a little and by a lot, infinite, NaN - and pairs
+    (x, x') at relative distances 1 ulp, 1e-16 .. 1e-6 in both orders; as first request of an object and after other requests"""
+    for g in (grids if big else grids[:3] + rng.sample(grids[3:], 2)):
+        tl, tr = 1e-2 * (g[1] - g[0]), 1e-2 * (g[-1] - g[-2]); w = g[-1] - g[0]
+        xs = [g[0], g[-1], 0.5 * (g[0] + g[1]), g[len(g) // 2], g[0] - 0.5 * tl, g[-1] + 0.5 * tr, g[0] - tl, g[-1] + tr, na(g[0] - tl, math.inf), na(g[0] - tl, -math.inf),
+              na(g[-1] + tr, math.inf), na(g[-1] + tr, -math.inf), g[0] - 1.2 * tl, g[-1] + 1.2 * tr, g[0] - 0.5 * (g[1] - g[0]), g[-1] + 0.5 * (g[-1] - g[-2]), g[0] - 3.0 * w, g[-1] + 10.0 * w,
+              -1e300, 1e300, math.inf, -math.inf, math.nan, 0.0, -0.0]
+        if not big: xs = xs[:8] + rng.sample(xs[8:12], 2) + xs[12:16] + rng.sample(xs[16:], 4)
+        for x in xs:
+            add(f"interp_integrate {flist(g)} {hx(x)} {hx(x)}", "coinciding-arguments", nt=True)
+            k = rng.choice(["local_min", "local_max"]); add(f"{k} {flist(g)} {hx(x)} {hx(x)}", "coinciding-arguments", nt=True)
+            if big: add(f"{'local_max' if k == 'local_min' else 'local_min'} {flist(g)} {hx(x)} {hx(x)}", "coinciding-arguments", nt=True)
+            # the same on an object with unit arguments that has served requests before
+            xd = rng.choice([-1.0, 10.0, 1e-3]); sx = scaled_table(g, xd); f = xd if xd > 0 else 1.0
+            if sx is not None and not (math.isnan(x) or math.isinf(x)):
+                pre = [f"ev {hx(rng.choice(sx))}", f"int {hx(sx[0])} {hx(sx[-1])}", f"loc {hx(0.5 * (sx[0] + sx[1]))}"]
+                rng.shuffle(pre); pre = pre[:rng.randint(0, 2)]
+                add(f"icalls {flist(g)} {len(g)} {hx(xd)} {hx(-1.0)} {len(pre) + 1} " + " ".join(pre + [f"{rng.choice(['int', 'int', 'min', 'max'])} {hx(x * f)} {hx(x * f)}"]), "coinciding-arguments", nt=True)
+            if math.isnan(x) or math.isinf(x) or x == 0.0: continue
+            near = [na(x, math.inf), na(x, -math.inf)] + [x * (1.0 + sg * r_) for r_ in (1e-16, 1e-13, 1e-10, 1e-6) for sg in (1.0, -1.0)]
+            for y in (near if big else rng.sample(near, 2)):
+                a, b = (x, y) if rng.random() < 0.5 else (y, x)
+                add(f"interp_integrate {flist(g)} {hx(a)} {hx(b)}", "coinciding-arguments", nt=True)
+                if big: add(f"local_min {flist(g)} {hx(min(a, b))} {hx(max(a, b))}", "coinciding-arguments", nt=True)
+    # the other entry points with two arguments that may coincide: integration limits (an unknown method is refused before `a == b` is looked at) and root brackets
+    for m in M1D + ["Bogus", "Monte-Carlo", "gauss-legendre"]:
+        for a in (0.25, -1.0, 0.0, 1e300):
+            add(f"nested int1 {m} {hx(a)} {hx(a)} 1 vec_at 3 3", "coinciding-arguments", nt=True)
+    for (e_, a) in (("- x c 0x1p+0", 1.0), ("- x c 0x1p+0", 2.0), ("- x c 0x1p+0", -3.0), ("c 0x0p+0", 0.5), ("c nan", 0.5), ("sqrt x", -1.0), ("sqrt x", 0.0)):
+        add(f"find_root {e_} {hx(a)} {hx(a)}", "coinciding-arguments", nt=True)
+
+
+SIMPLE_BAD = ["vec_at 3 3", "vec_at_c 0 0", "factorial 171", "vec_add 3 4", "trace 2 3", "mat_mul 2 3 2 3", "cross 3 2", "integrate Bogus", "integrate_2d Simpson", "gammaln 0x0p+0", "round 0x1p+0 8",
+              "mat_at 2 2 2", "det 3 2", "inverse 1 2 0x1p+0 0x1p+1", "sub_matrix 3 3 -1 0", "mat_ctor 2 2 1", "import_list 0", "export_table 2 2 3 2", "in_units 1 2 1", "workload 0 5", "minimize 2 3", "gauss_legendre 2 2 2 1",
+              "metropolis 1", "binned 2 3 0", "vsh_y 3", "binomial_coefficient -1 0", "pmf_binomial 5 0x1.8p+0 2", "cdf_poisson -0x1p+0 3", "inv_cdf_poisson 4 0x1p+1", "pdf_maxwell 0x0p+0", "inv_erf 0x1p+1",
+              "find_root c 0x1p+0 0x0p+0 0x1p+0", "interp 2 0x1p+0 0x1p+0 2", "interp_table 2 2 0x0p+0 0x1p+0 1 0x1p+0", "locate 3 0x0p+0 0x1p+0 0x1p+1 0x1p+2", "interpolate 2 0x0p+0 0x1p+0 -0x1p-6",
+              "interp_integrate 3 0x0p+0 0x1p+0 0x1p+1 0x1.8p+1 0x1.8p+1", "local_min 2 0x0p+0 0x1p+0 0x1p-1 0x1p-2", "interp2d 2 0x0p+0 0x1p+0 2 0x0p+0 0x1p+0 1 2", "closest 2 0x1p+1 0x1p+0 0x1p+0",
+              "icalls 3 0x0p+0 0x1p+0 0x1p+1 3 0x1.4p+3 -0x1p+0 2 ev 0x1p+3 ev 0x1.8p+4", "fact_seq 2 f 170 f 171", "vec_hist 3 1 resize 2 at 2", "mat_hist 3 3 1 resize 2 5 plus 3 3", "rotation 4 3", "block 0", "gammaq -0x1p+0 0x1p+0"]
+SIMPLE_GOOD = ["vec_at 3 2", "factorial 170", "vec_add 3 3", "trace 3 3", "mat_mul 2 3 3 2", "integrate Gauss-Legendre", "integrate_2d Vegas", "integrate_2d Trapezoidal", "integrate_mc Miser", "import_list 1", "export_table 2 2 2 2",
+               "interpolate 2 0x0p+0 0x1p+0 -0x1p-8", "interp_integrate 3 0x0p+0 0x1p+0 0x1p+1 0x1p-1 0x1p-1", "find_root - x c 0x1p+0 0x0p+0 0x1p+1", "inv_erf 0x1p-1", "kde 7", "minimize 2 2", "metropolis 2", "binomial_coefficient 170 85",
+               "icalls 3 0x0p+0 0x1p+0 0x1p+1 3 0x1.4p+3 -0x1p+0 2 ev 0x1p+3 int 0x1p+2 0x1p+2", "mat_hist 3 3 1 resize 2 5 plus 2 5", "fact_seq 2 f 170 f 3", "inverse 2 2 0x0p+0 0x1p+0 0x1p+0 0x0p+0", "cdf_binomial 5 0x1p-1 2"]
+
+
+def gen_process_histories(rng, big, add, pool):
+    """a request that is not the first one the process makes, and a request made while another one is running:
+    (a) `nested`: a guarded request made by the function handed to Integrate / Integrate_2D / Integrate_3D / Find_Root (an integrand that evaluates an
+        interpolation outside its table, ...), for every method, with the limits of every dimension ascending, descending (a legal request: the sign is swapped)
+        and coinciding (the integrand is not reached), on the 1st .. 3rd evaluation;
+    (b) `session`: several requests in one process - earlier ones that returned, that were abandoned by an exception thrown from the call-back (which the caller
+        caught), integrations with descending limits, Monte Carlo integrations, file requests - followed by a request on either side of a guard;
+        the diagnostic is that of the last request alone"""
+    bad = SIMPLE_BAD if big else rng.sample(SIMPLE_BAD, 14)
+    good = SIMPLE_GOOD if big else rng.sample(SIMPLE_GOOD, 5)
+    def lim2(kind):
+        a, b = rng.choice([(0.0, 1.0), (-1.5, 2.0), (0.25, 0.5), (1e-3, 1e3)])
+        if kind == "asc": return a, b
+        if kind == "desc": return b, a
+        if kind == "ulp": return (a, na(a, math.inf)) if rng.random() < 0.5 else (na(a, math.inf), a)
+        return a, a
+    orders = ["asc", "desc", "eq"]
+    def entry(e, m, kinds):
+        ls = []
+        for k_ in kinds: ls += list(lim2(k_))
+        return f"{e} {m} " + " ".join(hx(v) for v in ls)
+    # (a) every method x every pattern of limit orders (2D: all 9; 1D: 3 + ulp-close limits; 3D: a sample), inner request meaningless / meaningful / an exception
+    ent = []
+    for m in M1D + MMC + ["Bogus"]:
+        for kx in orders:
+            if m not in MMC: ent.append(entry("int1", m, [kx]))
+            for ky in orders:
+                if big or m == "Bogus" or rng.random() < 0.7: ent.append(entry("int2", m, [kx, ky]))
+        for _ in range(1 if not big else 6):
+            if m in ("Trapezoidal", "Tanh-Sinh", "Adaptive-Simpson", "Gauss-Kronrod") and not big: continue
+            ent.append(entry("int3", m, [rng.choice(orders) for _ in range(3)]))
+    for m in ("Gauss-Legendre", "Trapezoidal", "Gauss-Legendre_2"): ent.append(entry("int1", m, ["ulp"])); ent.append(entry("int2", m, ["ulp", "desc"]))
+    for (e_, a, b) in [("- x c 0x1p+0", 0.0, 3.0), ("- x c 0x1p+0", 3.0, 0.0), ("- x c 0x1p+0", 2.0, 3.0), ("- x c 0x1p+0", 1.0, 1.0), ("c nan", 0.0, 1.0)]:
+        ent.append(f"root {e_} {hx(a)} {hx(b)}")
+    for e in ent:
+        kmax = 2 if e.startswith("root") else 3
+        subs = [rng.choice(bad), rng.choice(bad if rng.random() < 0.5 else good + ["throw"])] if not big else rng.sample(bad, 4) + rng.sample(good, 2) + ["throw"]
+        for sub in subs: add(f"nested {e} {rng.randint(1, kmax)} {sub}", "request-inside-callback", nt=True)
+    # (b) histories
+    leave = [f"nested {entry('int2', m, [kx, ky])} {rng.randint(1, 3)} throw" for m in M1D + MMC for kx in ("asc", "desc") for ky in ("asc", "desc")]
+    leave += [f"nested {entry('int1', m, [kx])} {rng.randint(1, 3)} throw" for m in M1D for kx in ("asc", "desc")]
+    leave += [f"nested {entry('int3', m, ['desc', 'asc', 'desc'])} 2 throw" for m in ("Gauss-Legendre", "Vegas", "Miser")]
+    leave += [f"nested root - x c 0x1p+0 0x0p+0 0x1.8p+1 {k_} throw" for k_ in (1, 2)]
+    leave += [f"nested {entry('int2', m, ['desc', 'desc'])} 1 factorial 5" for m in M1D[:2] + MMC]       # completed integrations with descending limits (warnings are printed)
+    leave += [f"nested {entry('int1', m, ['desc'])} 1 vec_at 3 0" for m in M1D]
+    if not big: leave = rng.sample(leave, 40)
+    for h in leave:
+        for last in ([rng.choice(bad)] if not big else rng.sample(bad, 3) + [rng.choice(good)]):
+            pre = [rng.choice(good)] if rng.random() < 0.3 else []
+            seq = pre + [h, last]
+            add(f"session {len(seq)} " + " ;; ".join(seq), "process-history", nt=True)
+    # any earlier requests of the whole case language (those with a verdict, outside the regions of the known findings), then a request next to a guard
+    def usable(c):
+        t = c.line.split()
+        if t[0] in ("session", "nested") or len(c.line) > 400: return False
+        if t[0] == "mat_hist" and mat_ref(t)[2]: return False
+        if t[0] in ("icalls", "icalls_t") and "save" in t: return False
+        return True
+    cand = [c.line for c in pool if usable(c)]
+    rng.shuffle(cand)
+    goods, bads = [], []
+    for l in cand:
+        try: m = meaningful(l)
+        except (ValueError, IndexError): continue
+        if m is True and len(goods) < (60 if not big else 1500): goods.append(l)
+        elif m is False and len(bads) < (40 if not big else 800): bads.append(l)
+        if len(goods) >= (60 if not big else 1500) and len(bads) >= (40 if not big else 800): break
+    for i, last in enumerate(bads + goods[:len(goods) // 3]):
+        k = rng.choice([1, 2, 3]); seq = [rng.choice(goods) for _ in range(k)] + [last]
+        add(f"session {len(seq)} " + " ;; ".join(seq), "process-history", nt=True)
 
 
 def gen_nonfinite_tables(rng, big, add):
